@@ -648,7 +648,7 @@ def recover_dump(base: str, layout: str) -> dict:
         async def go():
             env = await MaildirEnv(layout, base_dir=base).start()
             return await dump_server(env)
-        return run(go(), timeout=60)
+        return run(go(), timeout=900)
     finally:
         pc.asyncio = saved
 
@@ -704,7 +704,7 @@ def _child_reference(base: str, layout: str, history, out_path: str,
         if snap_root is not None:
             tr.snapshot_now()          # the state after the last operation
     try:
-        run(go(), timeout=120)
+        run(go(), timeout=1800)
     except BaseException as exc:      # reported by the parent
         res['error'] = repr(exc)
     with _real['open'](out_path, 'w') as f:
@@ -721,7 +721,7 @@ def _child_killed(base: str, layout: str, history, k: int, log_path: str,
     ack_fd = _real['os_open'](ack_path, os.O_WRONLY | os.O_CREAT | os.O_APPEND, 0o600)
     tr = Tracer(base, kill_at=k, log_fd=log_fd)
     tr.install()
-    run(run_history(base, layout, history, tracer=tr, ack_fd=ack_fd), timeout=120)
+    run(run_history(base, layout, history, tracer=tr, ack_fd=ack_fd), timeout=1800)
 
 
 def _fork(fn, *args) -> int:
